@@ -1111,7 +1111,16 @@ def register(reg):
             admitted = z3.Int("H2_admitted_requests")
             c.eng.assume(c.st, admitted >= 1)
             idle_written = z3.BoolVal(bool(turned_idle))
+            # from the property (C12 "the number of concurrently open streams never exceeds the limit the server has advertised ...
+            # further requests wait for a stream to end rather than fail"): the slot goes to the next request when the response is
+            # CLOSED, which may be before the stream has ended (early close, cancelled request).  Unless the stream is reset then,
+            # the server still counts it: with a limit of 1 the next request is refused by h2 (TooManyStreamsError ->
+            # LocalProtocolError) instead of waiting.  `stream_over` = the peer has ended or reset the stream (unknown here).
+            x = c.new(s, "H2._h2_state")
+            stream_over = z3.Function("h2_stream_is_over", IntS, IntS, IntS, BoolS)(x.t, F(c, x, "X.ver", old=True), sid)
+            resets = [e for e in c.trace if e.name == "h2.reset_stream"]
             return [
+                ("slot_passed_on_only_once_the_stream_is_over_for_the_server_too", ("C12",), z3.Or(stream_over, z3.BoolVal(len(resets) == 1))),
                 ("idle_only_when_no_admitted_request_is_left", ("C12", "C08", "C05"), z3.Implies(idle_written, admitted - 1 == 0)),
                 ("slot_released_exactly_once", ("C12", "C05"), len(rel) == 1),
                 ("stream_unregistered", ("C12", "C05"), z3.And(*[e.data["key"].t == sid for e in c.events("dict.del")]) if len(c.events("dict.del")) == 1 else False),
